@@ -21,13 +21,18 @@
    (finding F15: InputManager._input_args was one slot per screen, read at delivery time); since the fix the callback
    of a request carries that request's arguments.  The refutation is kept on the legacy model
    (C06_args_overwritten_refuted_legacy; proofs/C06Proofs.v [legacy_input_ready_handler]).
-   "In the order typed" is FALSE in general, for the model and the implementation
-   (corpus/screen/order_modal_overtakes.json: with a line typed ahead, the ready signal of a screen of an outer event
-   queue waits while a modal screen pushed meanwhile asks, reads the next line and gets it first); what holds for
-   every session: hand-offs happen in typed order (the monitor takes the lines in order, one reader at a time), every
-   delivered line IS a typed line, unmodified, and each hand-off entry is consumed by exactly one ready signal. *)
+   "In the order typed" is FALSE in general, for the model and the implementation (finding F18,
+   corpus/screen/order_modal_overtakes.json, C06_order_refuted: with a line typed ahead, the ready signal of a screen
+   of an outer event queue waits while a modal screen pushed meanwhile asks, reads the next line and gets it first).
+   PARTIAL: it holds for every session in which no nested event loop is ever opened (C06_lines_in_order_partial; no
+   well-formedness needed): the texts of the successful ready signals - every delivery of a typed line, to a screen's
+   input() or to a blocking / handler-object request - are, in trace order, typed lines in typed order ([Subseq], an
+   order-preserving embedding: force_quit or a kill can lose a taken line, so it is not a prefix); the texts handed to
+   input() are a sub-sequence of those (C06_inputs_among_deliveries).  Definitions and the invariant:
+   proofs/InputOrder.v.  For every session: every delivered line IS a typed line, unmodified, and each hand-off entry
+   is consumed by exactly one ready signal. *)
 From Coq Require Import ZArith NArith List Bool.
-From SL Require Import PyInt LoopSem ScreenSem ScreenMon proofs.InputLink proofs.C06Proofs proofs.C18Proofs.
+From SL Require Import PyInt LoopSem ScreenSem ScreenMon proofs.InputLink proofs.C06Proofs proofs.C18Proofs proofs.InputOrder.
 Import ListNotations.
 
 (* 1. every session: the line goes to the screen that asked, at once, unmodified, with the arguments of that request *)
@@ -109,8 +114,53 @@ Example C06_args_overwritten_refuted_legacy :
   user_events T_INPUT f15_trace = [([0; 1], [49%N])].
 Proof. vm_compute. repeat split. Qed.
 
+(* 4. "in the order typed", for sessions with a single event queue.
+   [no_nested_loop t]: no ENewLoopEnter in t (execute_new_loop never ran: no modal screen was shown, no quit dialog);
+   [ready_texts t]: the texts of the events T_READY [n; 1] text of t, in order; [input_texts t]: those of T_INPUT;
+   [Subseq a b]: a embeds into b, order preserved (sub_nil / sub_skip / sub_take) *)
+Theorem C06_lines_in_order_partial : forall specs specl typed quit run_empty fuel acts,
+  let t := rev (trace (snd (app_run_all specs specl typed quit run_empty fuel acts))) in
+  no_nested_loop t = true -> Subseq (ready_texts t) (map line_of typed).
+Proof. exact lines_in_order. Qed.
+
+(* pure corollary of acceptance: the lines handed to input() are among the delivered ones, in the same order *)
+Theorem C06_inputs_among_deliveries : forall typed t,
+  sok chk_C06 typed t = true -> Subseq (input_texts t) (ready_texts t).
+Proof. exact inputs_among_deliveries. Qed.
+
+(* hence, for well-formed sessions with a single event queue: input() gets typed lines in typed order *)
+Theorem C06_inputs_in_order_partial : forall specs specl typed quit run_empty fuel acts,
+  (forall n, specs n = nth n specl default_spec) -> wf_session specl quit acts = true ->
+  let t := rev (trace (snd (app_run_all specs specl typed quit run_empty fuel acts))) in
+  no_nested_loop t = true -> Subseq (input_texts t) (map line_of typed).
+Proof.
+  intros specs specl typed quit run_empty fuel acts HS WF t NN.
+  eapply Subseq_trans; [apply (inputs_among_deliveries typed), (lines_delivered specs specl typed quit run_empty fuel acts HS WF)|].
+  apply (lines_in_order specs specl typed quit run_empty fuel acts NN).
+Qed.
+
+(* the hypothesis is needed (finding F18): a modal screen pushed between the hand-off of line "1" and its delivery gets
+   line "2" first; the session is well-formed, accepted by chk_C06, and a nested loop was opened *)
+Example C06_order_refuted :
+  wf_session f18_specl None f18_acts = true /\
+  sok chk_C06 f18_typed f18_trace = true /\
+  no_nested_loop f18_trace = false /\
+  map line_of f18_typed = [[49%N]; [50%N]] /\
+  ready_texts f18_trace = [[50%N]; [49%N]] /\
+  input_texts f18_trace = [[50%N]; [49%N]] /\
+  user_events T_INPUT f18_trace = [([1; 0], [50%N]); ([0; 0], [49%N])] /\
+  ~ Subseq (ready_texts f18_trace) (map line_of f18_typed).
+Proof.
+  assert (E : ready_texts f18_trace = [[50%N]; [49%N]]) by (vm_compute; reflexivity).
+  repeat split; try (vm_compute; reflexivity).
+  rewrite E. apply (Subseq_swap_refuted [49%N] [50%N]). discriminate.
+Qed.
+
 Print Assumptions C06_lines_delivered.
 Print Assumptions C06_no_duplicate_delivery.
 Print Assumptions C06_delivered_at_once.
 Print Assumptions C06_input_only_for_a_delivered_line.
 Print Assumptions C06_lines_intact.
+Print Assumptions C06_lines_in_order_partial.
+Print Assumptions C06_inputs_among_deliveries.
+Print Assumptions C06_inputs_in_order_partial.
